@@ -5,12 +5,14 @@
 //! `pbmon case <PROP> <case descriptor...>`   re-run one case verbosely (replay)
 
 mod refcodec;
+mod refslave;
 mod util;
 
 mod sim;
 mod vbus;
 
 mod eng_codec;
+mod eng_dp;
 mod eng_gsd;
 mod eng_las;
 mod eng_prm;
@@ -141,7 +143,11 @@ fn main() {
     match prop.as_str() {
         "C01" => eng_ring::c01(&mut ctx),
         "C02" => eng_ring::c02(&mut ctx),
+        "C03" => eng_dp::c03(&mut ctx),
+        "C04" => eng_dp::c04(&mut ctx),
         "C06" => eng_recover::c06(&mut ctx),
+        "C08" => eng_dp::c08(&mut ctx),
+        "C14" => eng_dp::c14(&mut ctx),
         "C09" => eng_codec::c09(&mut ctx),
         "C10" => eng_codec::c10(&mut ctx),
         "C16" => eng_rx::c16(&mut ctx),
